@@ -9,6 +9,7 @@ import (
 	"math/rand"
 	"net"
 	"sync"
+	"sync/atomic"
 	"time"
 
 	pb "github.com/jamf/regatta/regattapb"
@@ -142,6 +143,10 @@ func runL2(r *ev.Run, rep *reporter, id caseID) {
 		}
 	}
 	if !h.concurrentPhase() {
+		return
+	}
+	if h.tainted {
+		r.Inconclusive("a revision could not be attributed to one proposal; command contents were not compared")
 		return
 	}
 	r.Eval(1)
@@ -417,27 +422,26 @@ func (h *l2) sweep(phase int) bool {
 // concurrentPhase issues Replicate calls while a writer keeps proposing, so that "none beyond the
 // applied index sampled after the call" is exercised against a moving applied index.
 func (h *l2) concurrentPhase() bool {
-	n := 25 + h.rnd.Intn(10)
-	seeds := make([]int64, 0, 400)
-	for i := 0; i < 400; i++ {
-		seeds = append(seeds, h.rnd.Int63())
+	nCalls := 60
+	if h.r.Thorough() {
+		nCalls = 150
 	}
+	seeds := make([]int64, nCalls)
+	for i := range seeds {
+		seeds[i] = h.rnd.Int63()
+	}
+	var stop atomic.Bool
 	done := make(chan error, 1)
-	go func() { done <- h.propose(n) }()
+	go func() {
+		var err error
+		for i := 0; i < 400 && err == nil && !stop.Load(); i++ {
+			err = h.proposeOne()
+		}
+		done <- err
+	}()
 	var calls []*l2call
 	var shapes []cacheShape
-	running := true
-	for i := 0; i < len(seeds) && running; i++ {
-		select {
-		case err := <-done:
-			running = false
-			if err != nil {
-				h.r.Inconclusive(fmt.Sprintf("proposal failed during the concurrent phase (%v)", err))
-				return false
-			}
-			continue
-		default:
-		}
+	for i := 0; i < nCalls; i++ {
 		rr := rand.New(rand.NewSource(seeds[i]))
 		s := h.srvs[rr.Intn(len(h.srvs))]
 		first, _ := h.logRange()
@@ -450,14 +454,19 @@ func (h *l2) concurrentPhase() bool {
 		shapes = append(shapes, peekCache(h.eng.LogCache, h.shard))
 		calls = append(calls, h.call(s, a))
 	}
-	if running {
-		if err := <-done; err != nil {
-			h.r.Inconclusive(fmt.Sprintf("proposal failed during the concurrent phase (%v)", err))
-			return false
-		}
+	stop.Store(true)
+	if err := <-done; err != nil {
+		h.r.Inconclusive(fmt.Sprintf("proposal failed during the concurrent phase (%v)", err))
+		return false
 	}
 	h.r.Count("l2_calls_concurrent_with_writer", int64(len(calls)))
 	for i, c := range calls {
+		if c.AppliedAfter > c.AppliedBefore {
+			h.r.Count("l2_calls_during_which_applied_moved", 1)
+		}
+		if c.FirstAfter != c.FirstBefore {
+			h.r.Count("l2_calls_during_which_log_was_compacted", 1)
+		}
 		if !h.judge(c, shapes[i], false) {
 			return false
 		}
@@ -466,7 +475,16 @@ func (h *l2) concurrentPhase() bool {
 	return h.sweep(99)
 }
 
+// entrySize is the Raft entry's SizeUpperLimit: for a proposal of the harness it follows from the
+// proposed bytes (128 B of non-payload fields + 1 B encoding header + the marshalled command; the
+// tables use no entry compression); otherwise it is read from the log if the entry is still there.
 func (h *l2) entrySize(idx uint64) (uint64, bool) {
+	h.mu.Lock()
+	b, ok := h.hist[idx]
+	h.mu.Unlock()
+	if ok {
+		return uint64(128 + 1 + len(b)), true
+	}
 	es, err := h.simple.QueryRaftLog(context.Background(), h.shard, dragonboat.LogRange{FirstIndex: idx, LastIndex: idx + 1}, math.MaxUint64)
 	if err != nil || len(es) != 1 || es[0].Index != idx {
 		return 0, false
